@@ -692,6 +692,7 @@ def run_retarget(case: dict) -> dict:
     """pre = the module after apply() of the same edits without retargets
     (retargets are applied after the block edits), post = the identically
     built module after apply() with them."""
+    case.setdefault("del", [])   # cases recorded before the combined history existed
     r1 = exec_retarget(case, False)
     r2 = exec_retarget(case, True)
     return {"id": case["id"], "family": "retarget", "case": strip(case),
@@ -859,6 +860,7 @@ def exec_delsym(case: dict, with_reqs: bool) -> dict:
 def run_delsym(case: dict) -> dict:
     """pre = the module after apply() without requests, post = the identically
     built module after apply() with the deletions."""
+    case.setdefault("ret", [])
     r1 = exec_delsym(case, False)
     r2 = exec_delsym(case, True)
     return {"id": case["id"], "family": "delsym", "case": strip(case),
